@@ -45,6 +45,7 @@ func runC01(r *core.Run) (bool, string) {
 	c01Judge(r, dres, "directed")
 	r.Set("directed_packages", len(dp))
 	replayWitnesses(r, goose, "C01", tvOptions{}, c01Failing)
+	c01Matrix(r, goose)
 	rng := core.NewRng(r.Seed, "c01-random")
 	nb := r.Pick(3, 60)
 	perBatch := r.Pick(14, 40)
@@ -151,4 +152,47 @@ func sigOf(msg string) string {
 		f = f[:4]
 	}
 	return strings.Join(f, "-")
+}
+
+// c01Matrix runs the places × operations matrix. A cell may be refused by goose (that is
+// C02's "rejected" outcome) but an accepted cell must agree with Go on its closed cases.
+func c01Matrix(r *core.Run, goose string) {
+	pkgs := pruneToCompile(r, filepath.Join(r.Scratch, "c01-matrix-prune"), gen.MatrixPackages())
+	if pkgs == nil {
+		fmt.Println("matrix does not compile (framework defect)")
+		r.Inconclusive("matrix-does-not-compile")
+		return
+	}
+	var gp []*gorun.Pkg
+	for _, p := range pkgs {
+		gp = append(gp, &gorun.Pkg{Name: p.Name, Files: map[string]string{p.Name + ".go": p.Source}})
+	}
+	res, err := tvBatch(r, filepath.Join(r.Scratch, "c01-matrix"), goose, gp, tvOptions{PerPackage: true})
+	if err != nil {
+		fmt.Println("matrix batch:", err)
+		r.Inconclusive("matrix-batch-failed")
+		return
+	}
+	verdicts := map[string]string{}
+	for _, p := range res {
+		ty := strings.TrimPrefix(p.Name, "mx_")
+		judgeRejectedOrFaithful(r, p, verdicts, "c01-matrix-", func(fn string) (string, string, bool) {
+			if !strings.HasPrefix(fn, "cell_") {
+				return "", "", false
+			}
+			return ty + "-" + strings.TrimPrefix(fn, "cell_"), "", true
+		})
+	}
+	nrej, nok := 0, 0
+	for _, v := range verdicts {
+		if strings.HasPrefix(v, "rejected") {
+			nrej++
+		} else if strings.HasPrefix(v, "accepted") {
+			nok++
+		}
+	}
+	r.Set("matrix_cells", len(verdicts))
+	r.Set("matrix_cells_rejected_by_goose", nrej)
+	r.Set("matrix_cells_accepted_and_faithful", nok)
+	r.Set("matrix_verdicts", verdicts)
 }
